@@ -294,6 +294,12 @@ class RF:
 
     def pow(self, e: "RF"):
         ec = e.as_const()
+        if self.is_zero():
+            if ec is not None and ec > 0:
+                return RF.const(0)
+            if ec is None and _poly_sign(e.num) == 1 and _poly_sign(e.den) == 1:
+                return RF.const(0)      # 0 ** (positive symbolic exponent)
+            raise NFUnsupported("power of zero with a non-positive exponent")
         if ec is not None and ec.denominator == 1:
             k = int(ec)
             base = self if k >= 0 else self.inv()
